@@ -248,3 +248,44 @@ Theorem C14_existing_params_kept_modelled :
       (~ In k saml_params -> extra = []).
 Proof. exact existing_params_kept_modelled. Qed.
 Print Assumptions C14_existing_params_kept_modelled.
+
+(* The IdP endpoint is kept.  For every endpoint url.Parse accepts (parsed as U): the URL either flow returns is String() of U
+   after `U.RawQuery = Encode(qs)`, where qs is the merged query ([merged_query]: the endpoint's own parameters as URL.Query()
+   reads them, with SAMLRequest [, RelayState] [, SigAlg, Signature] added).  For an endpoint of the COMMON CLASS
+   ([common_endpoint]: absolute http / https URL with lower-case scheme; host written with unreserved characters, optional
+   decimal port, no userinfo / IPv6 literal / escapes; path empty or '/'-rooted, made of unreserved / sub-delim / ':' '@' '/'
+   characters and well-formed %XX escapes; optional query without control characters; no fragment) String(Parse(endpoint)) is
+   the endpoint itself and the URL returned is literally the endpoint's text before its '?', then "?", then the encoded
+   query: the endpoint is kept byte for byte. *)
+Theorem C14_endpoint_kept :
+  forall (sign : Redirect.hash_alg -> string -> option string) f cfg endpoint U relay binding deflated url signed,
+  url_parse endpoint = Ok U ->
+  build_url sign f cfg (url_parse_split endpoint) relay binding deflated = Ok (url, signed) ->
+  exists qs,
+    merged_query (parse_query (u_raw_query U)) relay deflated qs /\
+    url = Url.url_string (set_raw_query (values_encode qs) U) /\
+    (common_endpoint endpoint = true ->
+       Url.url_string U = endpoint /\ url = endpoint_base endpoint ++ "?" ++ values_encode qs).
+Proof. exact endpoint_kept. Qed.
+Print Assumptions C14_endpoint_kept.
+
+(* the round trip on its own: every endpoint of the common class parses, String() gives it back, and after `RawQuery = q`
+   (q not empty) String() is the text before the endpoint's first '?' followed by "?" and q *)
+Theorem C14_common_endpoint_round_trip :
+  forall u, common_endpoint u = true ->
+  exists U, url_parse u = Ok U /\ Url.url_string U = u /\
+    forall q, nonempty q = true -> Url.url_string (set_raw_query q U) = endpoint_base u ++ String (byte 63) q.
+Proof. exact common_endpoint_round_trip. Qed.
+Print Assumptions C14_common_endpoint_round_trip.
+
+(* "Kept byte for byte" is FALSE outside the common class: net/url normalises what it parsed ([rewritten_endpoints]: scheme
+   lower-cased, empty fragment dropped, space / non-ASCII escaped, non-ASCII host percent-encoded, userinfo re-encoded, and —
+   when the path holds one byte that validEncoded rejects — every %XX of the path decoded first, so %2F becomes a path
+   separator), and the redirect builders send the rewritten text. *)
+Theorem C14_endpoint_kept_verbatim_refuted :
+  forallb (fun p => match url_parse (fst p) with Ok U => Url.url_string U =?s snd p | Err _ => false end) rewritten_endpoints = true /\
+  (exists u U, url_parse u = Ok U /\ Url.url_string U <> u) /\
+  build_auth_url_redirect ex_sign ex_cfg_unsigned (url_parse_split "https://idp.example.com/a%2Fb/c d") "" "D"
+  = Ok ("https://idp.example.com/a/b/c%20d?SAMLRequest=RA%3D%3D", None).
+Proof. exact endpoint_kept_verbatim_refuted. Qed.
+Print Assumptions C14_endpoint_kept_verbatim_refuted.
